@@ -120,7 +120,10 @@ class GrammarGen:
     def skip_until(self):
         r = self.r
         lits = r.sample(["a", "b", "ab", "c", "ba"], r.randint(1, 3))
-        inner = ("str", lits[0]) if len(lits) == 1 and r.random() < 0.5 else ("group", ("alt", [("str", s) for s in lits]))
+        alts = [("str", s) for s in lits]
+        if self.p.get("skipuntil_ci") and r.random() < 0.4:
+            alts.insert(r.randrange(len(alts) + 1), ("ci", r.choice(["ab", "Ba", "c"])))
+        inner = ("str", lits[0]) if len(alts) == 1 and r.random() < 0.5 else ("group", ("alt", alts))
         return ("star", ("group", ("seq", [("not", inner), ("any",)])))
 
     def expr(self, depth, lower):  # noqa: PLR0911, PLR0912
@@ -138,6 +141,18 @@ class GrammarGen:
         def sub():
             return self.expr(depth - 1, lower)
 
+        if self.p.get("tags") and c < 0.03:
+            # a tag on a parenthesised group, alone or under a counted repetition / postfix operator
+            self.tagn += 1
+            g = ("group", sub())
+            form = r.random()
+            if form < 0.4:
+                return ("tag", f"g{self.tagn}", g)
+            if form < 0.7:
+                return ("tag", f"g{self.tagn}", r.choice([("exact", ("group", self.nonnull(depth - 1, lower)), 2), ("min", ("group", self.nonnull(depth - 1, lower)), 1), ("minmax", ("group", self.nonnull(depth - 1, lower)), 1, 2), ("plus", ("group", self.nonnull(depth - 1, lower)))]))
+            return r.choice([("exact", ("tag", f"g{self.tagn}", ("group", self.nonnull(depth - 1, lower))), 2), ("plus", ("tag", f"g{self.tagn}", ("group", self.nonnull(depth - 1, lower))))])
+        if self.p.get("zero_width_stack_reps") and self.p.get("stack") and c < 0.05:
+            return r.choice([("star", ("drop",)), ("star", ("seq", [("drop",), ("and", ("str", ""))])), ("plus", ("drop",)), ("star", ("seq", [("not", ("str", "q")), ("drop",)]))])
         if c < 0.26:
             return ("seq", [sub() for _ in range(r.randint(2, 3))])
         if c < 0.46:
@@ -148,14 +163,17 @@ class GrammarGen:
             return ("star", self.nonnull(depth - 1, lower))
         if c < 0.71:
             return ("plus", self.nonnull(depth - 1, lower))
+        zero = self.p.get("zero_counts") and r.random() < 0.2
         if c < 0.75:
-            return ("exact", self.nonnull(depth - 1, lower), r.randint(1, 3))
+            return ("exact", self.nonnull(depth - 1, lower), 0 if zero else r.randint(1, 3))
         if c < 0.79:
             return ("min", self.nonnull(depth - 1, lower), r.randint(0, 2))
         if c < 0.83:
-            return ("max", self.nonnull(depth - 1, lower), r.randint(1, 3))
+            return ("max", self.nonnull(depth - 1, lower), 0 if zero else r.randint(1, 3))
         if c < 0.87:
             m = r.randint(0, 2)
+            if zero:
+                return ("minmax", self.nonnull(depth - 1, lower), 0, 0)
             return ("minmax", self.nonnull(depth - 1, lower), m, max(1, m + r.randint(0, 2)))
         if c < 0.91:
             return ("and", sub())
@@ -255,6 +273,87 @@ def _replace_missing_trivia_refs(e, rules):
 
 
 # ----------------------------------------------------------------------------------------
+# optimizer-target family (C02): every shape the optimizer passes pattern-match on, over every ordered pair of
+# "literal-like" operands, so that each pass meets the output of each other pass (ordered pass subsets are
+# enumerated by the engine).
+
+OPT_OPERANDS: list[tuple[str, tuple]] = [
+    ("a", ("str", "a")),
+    ("ab", ("str", "ab")),
+    ("ciab", ("ci", "ab")),
+    ("cic", ("ci", "c")),
+    ("rng", ("range", "a", "c")),
+    ("dig", ("builtin", "ASCII_DIGIT")),
+    ("any", ("any",)),
+    ("sl", ("ref", "sl")),
+    ("sc", ("ref", "sc")),
+    ("nl", ("ref", "nl")),
+    ("nested", ("group", ("alt", [("str", "b"), ("ci", "a")]))),
+]
+OPT_HELPERS = {
+    "sl": ("_", ("str", "b")),
+    "sc": ("_", ("alt", [("str", "b"), ("ci", "c")])),
+    "nl": ("", ("str", "b")),
+}
+
+
+def _opt_shapes():
+    def G_(x):
+        return ("group", x)
+
+    return [
+        ("choice", lambda c: c),
+        ("choice_star", lambda c: ("star", G_(c))),
+        ("choice_plus", lambda c: ("plus", G_(c))),
+        ("choice_opt_then", lambda c: ("seq", [("opt", G_(c)), ("str", "b")])),
+        ("choice_exact", lambda c: ("exact", G_(c), 2)),
+        ("choice_tagged", lambda c: ("seq", [("tag", "t", G_(c)), ("star", ("any",))])),
+        ("until", lambda c: ("star", G_(("seq", [("not", G_(c)), ("any",)])))),
+        ("until_then", lambda c: ("seq", [("star", G_(("seq", [("not", G_(c)), ("any",)]))), G_(c)])),
+        ("until_plus", lambda c: ("plus", G_(("seq", [("not", G_(c)), ("any",)])))),
+        ("until_ref", lambda c: ("seq", [("star", G_(("seq", [("not", ("ref", "stop")), ("any",)]))), ("opt", ("ref", "stop"))])),
+        ("until_ref_normal", lambda c: ("seq", [("star", G_(("seq", [("not", ("ref", "nstop")), ("any",)]))), ("opt", ("ref", "nstop"))])),
+        ("not_any", lambda c: ("seq", [("not", G_(c)), ("any",), ("star", ("any",))])),
+    ]
+
+
+OPT_SHAPES = _opt_shapes()
+OPT_MODS = ["", "@", "$"]
+OPT_TRIVIA = [False, True]
+
+
+def opt_target_size() -> int:
+    n = len(OPT_OPERANDS)
+    return n * n * len(OPT_SHAPES) * len(OPT_MODS) * len(OPT_TRIVIA)
+
+
+def opt_target_case(idx: int):
+    n = len(OPT_OPERANDS)
+    idx, tv = divmod(idx, len(OPT_TRIVIA))
+    idx, mi = divmod(idx, len(OPT_MODS))
+    idx, si = divmod(idx, len(OPT_SHAPES))
+    i, j = divmod(idx, n)
+    (na, a), (nb, b) = OPT_OPERANDS[i], OPT_OPERANDS[j]
+    sname, shape = OPT_SHAPES[si]
+    # i == j: a single operand (no choice at all), otherwise the ordered pair as a choice
+    c = a if i == j else ("alt", [a, b])
+    rules: dict = {"r": (OPT_MODS[mi], shape(c))}
+    if sname == "until_ref":
+        rules["stop"] = ("_", c)
+    if sname == "until_ref_normal":
+        rules["nstop"] = ("", c)
+    used = {x[1] for _n, (_m, e) in list(rules.items()) for x in walk(e) if x[0] == "ref"}
+    for h in ("sl", "sc", "nl"):
+        if h in used:
+            rules[h] = OPT_HELPERS[h]
+    if OPT_TRIVIA[tv]:
+        rules["WHITESPACE"] = ("_", ("str", " "))
+    label = f"opt/{sname}/{na}-{nb}/{OPT_MODS[mi] or 'n'}/{'ws' if OPT_TRIVIA[tv] else 'nows'}"
+    inputs = ["abc AB c", "xx AB", "zzCz", "z Ab", "1a", "zz1", "a b", "B", "zzAb", "zz aB b", "C", "zc", "zzab"]
+    return label, rules, inputs
+
+
+# ----------------------------------------------------------------------------------------
 # stack scenarios: parse-driven histories of push / pop / checkpoint / commit / rollback
 
 
@@ -311,6 +410,57 @@ def stack_scenario(rnd: random.Random) -> dict:
         ]
     )
     return {"r": ("", ("seq", pro + body + epi))}
+
+
+# exhaustive small expression trees over the core operators (C03's enumerated stratum)
+CORE_TERMINALS = [
+    ("str", "a"), ("str", "b"), ("str", "ab"), ("ci", "a"), ("range", "a", "b"), ("any",), ("soi",), ("eoi",), ("builtin", "ASCII_ALPHA_UPPER"),
+    ("ref", "n"), ("ref", "s"),
+]
+CORE_HELPERS = {"n": ("", ("str", "a")), "s": ("_", ("alt", [("str", "b"), ("ref", "n")]))}
+_CORE_NULL = {"n": False, "s": False}
+
+
+def _core_unary(e):
+    nn = not nullable(e, lambda n: _CORE_NULL.get(n, True))
+    out = [("opt", e), ("and", e), ("not", e), ("max", e, 2)] if nn or True else []
+    if nn:
+        out += [("star", e), ("plus", e), ("exact", e, 2), ("min", e, 1), ("minmax", e, 1, 2)]
+    return out
+
+
+def core_trees(depth: int) -> list:
+    """All expression trees of the given depth bound (depth 1 = terminals)."""
+    level = list(CORE_TERMINALS)
+    allt = list(level)
+    for _ in range(depth - 1):
+        nxt = []
+        for e in level:
+            nxt += _core_unary(e)
+        for a in allt:
+            for b in allt:
+                if a in level or b in level:
+                    nxt.append(("seq", [a, b]))
+                    nxt.append(("alt", [a, b]))
+        level = nxt
+        allt = allt + nxt
+    return allt
+
+
+_CORE_CACHE: dict[int, list] = {}
+
+
+def core_tree_case(depth: int, index: int):
+    if depth not in _CORE_CACHE:
+        _CORE_CACHE[depth] = core_trees(depth)
+    e = _CORE_CACHE[depth][index]
+    rules = {"r": ("", e)}
+    for nd in walk(e):
+        if nd[0] == "ref":
+            rules[nd[1]] = CORE_HELPERS[nd[1]]
+            if nd[1] == "s":
+                rules["n"] = CORE_HELPERS["n"]
+    return f"coretree/{depth}/{index}", rules
 
 
 # "dig below the snapshot" family (bounded-exhaustive): pushes ~ OUTER( pushes ~ direct pops ~ INNER( pops ) ~ fail ) ~ read back
@@ -592,6 +742,10 @@ HELPERS = {
     "at": ("@", ("seq", [("str", "a"), ("ref", "n")])),
     "cp": ("$", ("seq", [("str", "a"), ("ref", "n")])),
     "na": ("!", ("seq", [("str", "a"), ("ref", "n")])),
+    "dp": ("", ("seq", [("ref", "cp"), ("opt", ("str", "b"))])),
+    "am": ("@", ("seq", [("ref", "dp"), ("str", "-"), ("ref", "cp")])),
+    "am2": ("@", ("seq", [("ref", "cp"), ("str", "-"), ("ref", "dp"), ("opt", ("seq", [("str", "-"), ("ref", "na")]))])),
+    "am3": ("@", ("seq", [("ref", "n"), ("ref", "dp"), ("ref", "at"), ("ref", "cp")])),
 }
 
 CONSTRUCTS: list[tuple[str, tuple, bool]] = [
@@ -609,6 +763,9 @@ CONSTRUCTS: list[tuple[str, tuple, bool]] = [
     ("ref_atomic", ("ref", "at"), False),
     ("ref_compound", ("ref", "cp"), False),
     ("ref_nonatomic", ("ref", "na"), False),
+    ("ref_atomic_mixed_depth", ("ref", "am"), False),
+    ("ref_atomic_mixed_depth2", ("ref", "am2"), False),
+    ("ref_atomic_mixed_depth3", ("ref", "am3"), False),
     ("seq", ("seq", [("str", "a"), ("str", "b")]), False),
     ("seq_refs", ("seq", [("ref", "n"), ("ref", "s")]), False),
     ("seq_zero_width_tail", ("seq", [("str", "a"), ("opt", ("str", "b"))]), False),
@@ -708,7 +865,7 @@ def matrix_case(index: int):
     xname, xfun, needs_nonnull = CONTEXTS[xi]
     mod = MODIFIERS[mi]
     tname, trules = TRIVIA_CFGS[ti]
-    helper_null = {"n": False, "s": False, "at": False, "cp": False, "na": False}
+    helper_null = {"n": False, "s": False, "at": False, "cp": False, "na": False, "dp": False, "am": False, "am2": False, "am3": False}
     if needs_nonnull and nullable(kexpr, lambda n: helper_null.get(n, True)):
         return None
     body = xfun(kexpr)
